@@ -306,6 +306,38 @@ func checkC06(c *Ctx) {
 	// ---- C06.3
 	checkCovertWriters(c, "C06.3")
 
+	// ---- C06.10 "(and inside the allowlist when one is configured)": with the allowlist enabled the blocklist is not
+	// what decides - the blocklist is consulted only on the enableCovertAllowlist == false side
+	r.Rule("C06.10", "with the allowlist enabled the verdict never falls through to the blocklist", 1)
+	if f := c.fn("C06.10", lib, "RegConfig", "isBlocklistedCovertAddr"); f != nil {
+		n := 0
+		eachInstrDeep(f, 1, func(in ssa.Instruction, d deepCtx) {
+			if d.f != f {
+				return
+			}
+			var v ssa.Value
+			switch x := in.(type) {
+			case *ssa.UnOp:
+				if x.Op == token.MUL {
+					v = x.X
+				}
+			}
+			if v == nil {
+				return
+			}
+			if _, fld, ok := fieldOwner(v); !ok || fld != "covertBlocklistSubnets" {
+				return
+			}
+			n++
+			g := guardedM(f, in, func(cnd string, pol bool) bool { return strings.HasSuffix(cnd, ".enableCovertAllowlist") && !pol })
+			r.Check(g, "C06.10", "isBlocklistedCovertAddr: the blocklist is read only when the allowlist is off", in.Pos(), fnName(f), "dominated by enableCovertAllowlist == false",
+				"with the allowlist enabled an address can still be judged by the blocklist (an allowlist that does not 'cover' it falls through): addresses outside the configured allowlist are admitted")
+		})
+		if n == 0 {
+			r.Unk("C06.10", "isBlocklistedCovertAddr: read of the blocklist", f.Pos(), fnName(f), "not found")
+		}
+	}
+
 	// ---- C06.9 "for every station configuration": after a reload the lists in force are the new configuration's
 	r.Rule("C06.9", "a reload takes over every parsed policy list of the new configuration, unconditionally", 2)
 	checkReloadTakeover(c, "C06.9")
